@@ -566,7 +566,16 @@ func pipeRun(in pipeInput, stages map[string]bool) (evs []tr.M, nt []string) {
 			se := tr.M{"ev": "serde", "rtBefore": 1, "rtAfter": 1, "sameResult": 0, "calls": 0, "msg": ""}
 			guard("serde", &evs, func() {
 				digest := func(gr *d2graph.Graph) string {
-					gb, _ := json.Marshal(geomOf(gr))
+					gm := geomOf(gr)
+					// which of grid-rows / grid-columns was written first is read from the keys' source ranges
+					// (Scalar.MapKey, json:"-"): the AST is not part of the wire format and the grid layout that
+					// needs it runs in the host process, so the round trip is not asked to preserve it
+					if os, ok := gm["objs"].([]tr.M); ok {
+						for _, o := range os {
+							delete(o, "rowsFirst")
+						}
+					}
+					gb, _ := json.Marshal(gm)
 					return proj.Digest([]proj.Board{proj.Graph(gr, nil)}) + string(gb)
 				}
 				wire := func(ctx context.Context, gr *d2graph.Graph) error {
